@@ -514,6 +514,9 @@ fn limit_unit(rep: &mut Report, rng: &mut Rng) {
 // relations
 
 fn support_note(rep: &mut Report, rt: Type, c: &CS, pos: &str, out: &Out) {
+    if matches!(c, CS::Union(_)) {
+        return;
+    }
     let state = match out {
         Out::Rows(_) | Out::Refused(_) => "ok",
         Out::Unsupported(_) => "unsupported",
@@ -554,6 +557,46 @@ fn relations(rep: &mut Report, rng: &mut Rng, store: &AnnotationStore, model: &M
         .collect();
     rep.evals(n as u64);
 
+    // 0. each constraint alone: as primary (index-driven source) and as secondary (filter over everything)
+    let mut disagreeing: Vec<String> = Vec::new();
+    for (c, o) in cs.iter().zip(&singles) {
+        if matches!(c, CS::Limit(..)) {
+            continue;
+        }
+        let q = QS::new(rt, vec![CS::Limit(0, 0), c.clone()]);
+        let sec = eval(store, &q);
+        support_note(rep, rt, c, "secondary", &sec);
+        rep.eval();
+        if check_panic(rep, &sec, &q, sd) {
+            continue;
+        }
+        if let (Some(a), Some(b)) = (o.set(), sec.set()) {
+            rep.distinct(&format!("primary-vs-secondary/{}/{}", rtname(rt), c.kind()));
+            if a != b {
+                disagreeing.push(c.kind());
+                let kind = if b.is_subset(&a) { "secondary-misses" } else if a.is_subset(&b) { "secondary-has-more" } else { "differs" };
+                // a union inherits the disagreement of a member: name the member
+                let mut cell = c.kind();
+                if let CS::Union(members) = c {
+                    for m in members {
+                        let pa = eval(store, &QS::new(rt, vec![m.clone()]));
+                        let pb = eval(store, &QS::new(rt, vec![CS::Limit(0, 0), m.clone()]));
+                        if let (Some(x), Some(y)) = (pa.set(), pb.set()) {
+                            if x != y {
+                                cell = m.kind();
+                                break;
+                            }
+                        }
+                    }
+                }
+                rep.violation(
+                    format!("C08/primary-vs-secondary/{}/{}", rtname(rt), cell),
+                    ctx(sd, &q, json!({"constraint": format!("{:?}", c), "direction": kind, "as_only_constraint": a, "as_second_constraint_after_LIMIT_0_0": b})),
+                );
+            }
+        }
+    }
+
     // 7. scan of the shadow model for the unambiguous constraints (ANNOTATION results)
     if rt == Type::Annotation {
         for (c, o) in cs.iter().zip(&singles) {
@@ -575,8 +618,8 @@ fn relations(rep: &mut Report, rng: &mut Rng, store: &AnnotationStore, model: &M
         if let (Some(rows), Some(set)) = (o.rows(), o.set()) {
             rep.eval();
             if rows.len() != set.len() && rows.len() < MAXROWS {
-                let q = QS::new(rt, vec![c.clone()]);
-                rep.violation(format!("C08/duplicates/{}/{}", rtname(rt), c.kind()), ctx(sd, &q, json!({"rows": rows})));
+                // the statement promises duplicate-free answers for disjunctions only; elsewhere repeated rows are recorded, not judged
+                rep.count(&format!("repeated-rows/{}/{}", rtname(rt), c.kind()));
             }
         }
     }
@@ -591,14 +634,6 @@ fn relations(rep: &mut Report, rng: &mut Rng, store: &AnnotationStore, model: &M
             let q = QS::new(rt, perm.iter().map(|i| cs[*i].clone()).collect());
             let o = eval(store, &q);
             rep.eval();
-            for (pos, i) in perm.iter().enumerate() {
-                if pos > 0 {
-                    // a query whose primary is fine but which is unsupported overall blames a secondary
-                    if matches!(singles[perm[0]], Out::Rows(_)) && perm.len() == 2 {
-                        support_note(rep, rt, &cs[*i], "secondary", &o);
-                    }
-                }
-            }
             check_panic(rep, &o, &q, sd);
             outs.push((perm.clone(), o));
         }
@@ -609,6 +644,10 @@ fn relations(rep: &mut Report, rng: &mut Rng, store: &AnnotationStore, model: &M
                 rep.eval();
                 rep.distinct(&format!("order/{}/{}", rtname(rt), kinds_of(&cs)));
                 if first.1.set() != other.1.set() {
+                    if !disagreeing.is_empty() {
+                        rep.count("order/explained-by-primary-vs-secondary");
+                        break;
+                    }
                     let q = QS::new(rt, first.0.iter().map(|i| cs[*i].clone()).collect());
                     rep.violation(
                         format!("C08/order/{}/primary:{}-vs-{}", rtname(rt), cs[first.0[0]].kind(), cs[other.0[0]].kind()),
@@ -630,6 +669,10 @@ fn relations(rep: &mut Report, rng: &mut Rng, store: &AnnotationStore, model: &M
                 rep.distinct(&format!("conj/{}/{}", rtname(rt), kinds_of(&cs)));
                 let got = o.set().unwrap();
                 if got != inter {
+                    if !disagreeing.is_empty() {
+                        rep.count("conjunction/explained-by-primary-vs-secondary");
+                        break;
+                    }
                     let q = QS::new(rt, perm.iter().map(|i| cs[*i].clone()).collect());
                     let secondary: Vec<String> = perm[1..].iter().map(|i| cs[*i].kind()).collect();
                     let kind = if got.is_subset(&inter) { "missing" } else if inter.is_subset(&got) { "extra" } else { "differs" };
@@ -1074,7 +1117,7 @@ pub fn run_monitor(p: &Params, rep: &mut Report) {
         "sub-query rows are compared as multisets".into(),
         "ids containing quotes or backslashes are not generated (C09 finding)".into(),
     ];
-    let total: u64 = if p.thorough { 6000 } else { 160 };
+    let total: u64 = if p.thorough { 400000 } else { 400 };
     for k in p.cases(total) {
         rep.current_case = p.case_coord(k);
         rep.cases += 1;
@@ -1104,5 +1147,33 @@ pub fn run_monitor(p: &Params, rep: &mut Report) {
             limit_unit(rep, &mut rng);
         }
         mutations(rep, &mut rng, h, milestone, shrink, &sd);
+    }
+    // a constraint position that the pinned tree always answered and that is refused now is a regression
+    let baseline: Vec<String> = serde_json::from_str(include_str!("../data/c08-support.json")).unwrap_or_default();
+    let mut observed: BTreeSet<String> = BTreeSet::new();
+    for (k, v) in rep.hist.iter() {
+        if let Some(rest) = k.strip_prefix("support/") {
+            if *v > 0 {
+                observed.insert(rest.to_string());
+            }
+        }
+    }
+    for cell in &baseline {
+        for state in ["unsupported", "panic"] {
+            if observed.contains(&format!("{}/{}", cell, state)) {
+                rep.violation(format!("C08/support-regression/{}/{}", cell, state), json!({"cell": cell, "baseline": "always answered on the pinned tree", "now": state}));
+            }
+        }
+    }
+    if p.variant.as_deref() == Some("support") {
+        let mut cells: BTreeSet<String> = BTreeSet::new();
+        for o in &observed {
+            if let Some(c) = o.strip_suffix("/ok") {
+                if !observed.contains(&format!("{}/unsupported", c)) && !observed.contains(&format!("{}/panic", c)) {
+                    cells.insert(c.to_string());
+                }
+            }
+        }
+        eprintln!("SUPPORT {}", serde_json::to_string(&cells).unwrap());
     }
 }
